@@ -326,6 +326,54 @@ fn check_expr(e: &Ex, cn: &mut Cn) -> Option<(String, String)> {
                 }
                 Err(p) => return Some(("bdd-expr-panic".into(), format!("compile_logical_expr panicked: {}", p))),
             }
+            // the same compilation on a builder that has been used by another feature family first:
+            // every literal and every two-literal conjunction / disjunction conditioned on every literal and
+            // quantified over every variable (conditioning and compilation share the builder's tables); then
+            // the result is conditioned on every literal and the expression compiled once more
+            if n >= 1 && !crate::core::disabled("warmexpr") {
+                let b = small_builder(&order, 4);
+                let r = guarded(|| {
+                    let lits: Vec<BddPtr> = (0..n).flat_map(|v| [b.var(VarLabel::new(v as u64), true), b.var(VarLabel::new(v as u64), false)]).collect();
+                    let mut roots = lits.clone();
+                    for i in 0..lits.len() {
+                        for j in 0..lits.len() {
+                            if i / 2 != j / 2 {
+                                roots.push(b.and(lits[i], lits[j]));
+                                roots.push(b.or(lits[i], lits[j]));
+                            }
+                        }
+                    }
+                    for &p in roots.iter() {
+                        for v in 0..n {
+                            let _ = b.condition(p, VarLabel::new(v as u64), true);
+                            let _ = b.condition(p, VarLabel::new(v as u64), false);
+                            let _ = b.exists(p, VarLabel::new(v as u64));
+                        }
+                    }
+                    let r1 = b.compile_logical_expr(le);
+                    let mut conds = Vec::new();
+                    for v in 0..n {
+                        for val in [true, false] {
+                            conds.push((v, val, b.condition(r1, VarLabel::new(v as u64), val)));
+                        }
+                    }
+                    (r1, conds, b.compile_logical_expr(le))
+                });
+                cn.bdd_compiles += 2;
+                match r {
+                    Ok((r1, conds, r2)) => {
+                        if bdd_tt(r1, n) != f || bdd_tt(r2, n) != f {
+                            return Some(("bdd-expr".into(), format!("{}, order {:?}, on a builder that had conditioned and quantified literals and two-literal diagrams before: compiles to {:#x} (again after conditioning the result: {:#x}), the expression denotes {:#x}", form, order, bdd_tt(r1, n), bdd_tt(r2, n), f)));
+                        }
+                        for (v, val, c) in conds {
+                            if bdd_tt(c, n) != tt::cofactor(f, v, val, n) {
+                                return Some(("bdd-expr".into(), format!("{}, order {:?}: the compiled expression conditioned on x{} = {} denotes {:#x}, the restricted expression is {:#x}", form, order, v, val, bdd_tt(c, n), tt::cofactor(f, v, val, n))));
+                            }
+                        }
+                    }
+                    Err(p) => return Some(("bdd-expr-panic".into(), format!("compile_logical_expr on a used builder panicked: {}", p))),
+                }
+            }
         }
         for vt in all_vtrees(n) {
             let b = sdd_builder(&vt, 4);
